@@ -1217,3 +1217,34 @@ func init() {
 	regScenario("batch-mix-plain", mkMix(FSMPlain))
 	regScenario("batch-mix-cfgstore", mkMix(FSMConfigStore))
 }
+
+func init() {
+	// A follower that has applied entries above the leader's snapshot rejects writes for a while (its log store
+	// fails): the leader walks its nextIndex back one failed AppendEntries at a time, falls below its own
+	// compaction point and ships a snapshot whose index is BELOW what the follower has already applied. The
+	// follower's FSM goes back to the snapshot and must be given the entries above it again.
+	regScenario("snap3-storefail", func() *Scenario {
+		return &Scenario{Nodes: voters(3), Devs: DevAll, Horizon: 900, Goal: goalConverged, AutoRestart: true,
+			Conf: func(i int, c *raft.Config) { c.TrailingLogs = 0; c.MaxAppendEntries = 2 },
+			Steps: []Step{
+				stepApplyLeader("apply1"), stepApplyLeader("apply2"),
+				stepDo("leader-snapshot", whenSettled, func(w *World) { w.snapshot(w.leader()) }),
+				stepApplyLeader("apply3"),
+				stepDo("follower-store-fails+apply4", whenSettled, func(w *World) {
+					f := w.aFollower()
+					w.vals["F"] = f.id
+					w.vals["failstore"] = f.id + 1
+					w.apply(w.leader(), 0)
+				}),
+				stepDo("follower-store-recovers", func(w *World) bool {
+					for _, m := range w.msgs {
+						if m.Kind == "IS" && m.To == w.vals["F"] && m.St == mReplied {
+							return true
+						}
+					}
+					return false
+				}, func(w *World) { w.vals["failstore"] = 0 }),
+				stepDo("apply5", whenSettled, func(w *World) { w.apply(w.leader(), 0) }),
+			}}
+	})
+}
